@@ -377,12 +377,8 @@ def return_event(c, hdr, rec, res, series, args_same):
 
 def run_many(configs, fault_plans=None, workers=None):
     """Execute configurations in parallel (non-daemonic workers: the library opens its own pool)."""
-    import concurrent.futures as cf
-    import multiprocessing as mp
     fault_plans = fault_plans or [None] * len(configs)
-    ctx = mp.get_context("fork")
-    with cf.ProcessPoolExecutor(max_workers=workers or common.NCPU, mp_context=ctx) as ex:
-        return list(ex.map(_run_one, list(zip(configs, fault_plans)), chunksize=1))
+    return common.pmap(_run_one, list(zip(configs, fault_plans)), workers=workers)
 
 
 def _run_one(job):
